@@ -16,9 +16,10 @@ type pathExec struct {
 	fn      *ssa.Function
 	oracle  func(pe *pathExec, cond ssa.Value) (val bool, known bool)
 	phi     map[*ssa.Phi]ssa.Value
-	mem     map[string]ssa.Value    // local memory: alloc/field cell -> last stored value on this path
-	vals    map[ssa.Value]ssa.Value // loads evaluated at their execution point
-	ints    map[*ssa.Phi]int64      // integer phis folded to constants on this path
+	mem     map[string]ssa.Value     // local memory: alloc/field cell -> last stored value on this path
+	vals    map[ssa.Value]ssa.Value  // loads evaluated at their execution point
+	ints    map[*ssa.Phi]int64       // integer phis folded to constants on this path
+	pints   map[*ssa.Parameter]int64 // integer parameters of inlined callees, folded at the call
 	lenOf   func(call *ssa.Call) (int64, bool)
 	intHook func(v ssa.Value) (int64, bool) // optional: concrete integer value of a parameter / call result
 	inline  func(callee *ssa.Function) bool // optional: static module callees to execute in place
@@ -124,6 +125,7 @@ func (pe *pathExec) run() (ssa.Instruction, string) {
 	pe.phi, pe.mem, pe.visits = map[*ssa.Phi]ssa.Value{}, map[string]ssa.Value{}, map[*ssa.BasicBlock]int{}
 	pe.vals = map[ssa.Value]ssa.Value{}
 	pe.ints = map[*ssa.Phi]int64{}
+	pe.pints = map[*ssa.Parameter]int64{}
 	pe.tup = map[*ssa.Call][]ssa.Value{}
 	return pe.exec(pe.fn, pe.start, 0)
 }
@@ -207,6 +209,12 @@ func (pe *pathExec) exec(fn *ssa.Function, start *ssa.BasicBlock, depth int) (ss
 					args := t.Call.Args
 					if len(args) == len(callee.Params) {
 						for i, prm := range callee.Params {
+							// fold integer arguments now: a symbolic `i+1` would be re-evaluated later against a newer i
+							if k, ok := pe.intOf(args[i], 0); ok {
+								pe.pints[prm] = k
+							} else {
+								delete(pe.pints, prm)
+							}
 							pe.vals[prm] = pe.resolve(args[i])
 						}
 						end, why := pe.exec(callee, nil, depth+1)
@@ -284,6 +292,11 @@ func (pe *pathExec) intOf(v ssa.Value, d int) (int64, bool) {
 	}
 	if pe.intHook != nil {
 		if k, ok := pe.intHook(v); ok {
+			return k, true
+		}
+	}
+	if prm, ok := v.(*ssa.Parameter); ok {
+		if k, ok := pe.pints[prm]; ok {
 			return k, true
 		}
 	}
